@@ -549,6 +549,18 @@ def gen_xlcorpus(outdir, seed, count):
         m.func([I32], [I32], body, export="deep%d" % depth)
     m.func([I32], [I32], [("local.get", 0)])
     emit("m906", m)
+    # many functions that are mostly branch tables with different targets (several per output file with -f): state that a worker keeps
+    # per instruction must not be visible to another worker
+    m = Module(); m.memory(1)
+    for i in range(24):
+        body = []
+        for j in range(3):
+            n = 12 + (i * 7 + j * 5) % 30
+            targets = [(i * 3 + j + k * (1 + i % 5)) % n for k in range(n + 40)]
+            body += [("block",)] * n + [("local.get", 0), ("br_table", targets, (i + j) % n)] + ["end"] * n
+        body += [("local.get", 0), ("i32.const", i), "i32.add"]
+        m.func([I32], [I32], body, export="bt%d" % i)
+    emit("m907", m)
     # pinned module (sweep list of C10 only): nesting deep enough to exhaust any ordinary thread stack - the code generator recurses
     # once per nesting level (reproduces a recorded finding in every run)
     m = Module(); m.memory(1)
